@@ -76,6 +76,9 @@ def rand_unit(rng):
 
 
 def perp_unit(rng, a):
+  a = np.asarray(a, dtype=float)
+  na = np.linalg.norm(a)
+  a = a / na if na > 0 else np.array([0.0, 0.0, 1.0])
   while True:
     v = np.cross(a, rng.normal(size=3))
     n = np.linalg.norm(v)
